@@ -583,6 +583,11 @@ func isFailureValue(v ssa.Value, fk FailKind, env *pathEnv) bool {
 		switch x := v.(type) {
 		case *ssa.MakeInterface:
 			return true
+		case *ssa.UnOp:
+			// a package-level sentinel error: var ErrX = errors.New(...), never reassigned outside init
+			if g, ok := x.X.(*ssa.Global); ok && x.Op == token.MUL && sentinelError(g) {
+				return true
+			}
 		case *ssa.Call:
 			n := CallName(x)
 			return n == "errors.New" || n == "fmt.Errorf"
@@ -1015,4 +1020,38 @@ func ResultUsed(c *ssa.Call) bool {
 		return true
 	}
 	return false
+}
+
+var sentinelMemo = map[*ssa.Global]bool{}
+
+// sentinelError: a global of type error that is assigned exactly once, in the package initialiser, from errors.New / fmt.Errorf
+func sentinelError(g *ssa.Global) bool {
+	if v, ok := sentinelMemo[g]; ok {
+		return v
+	}
+	res := false
+	if g.Pkg != nil {
+		n, okc := 0, false
+		for _, m := range g.Pkg.Members {
+			fn, isF := m.(*ssa.Function)
+			if !isF {
+				continue
+			}
+			for _, f := range WithClosures(fn) {
+				Instrs(f, func(i ssa.Instruction) {
+					if st, ok := i.(*ssa.Store); ok && st.Addr == ssa.Value(g) {
+						n++
+						if c, ok := st.Val.(*ssa.Call); ok && fn.Name() == "init" {
+							if cn := CallName(c); cn == "errors.New" || cn == "fmt.Errorf" {
+								okc = true
+							}
+						}
+					}
+				})
+			}
+		}
+		res = n == 1 && okc
+	}
+	sentinelMemo[g] = res
+	return res
 }
